@@ -87,3 +87,83 @@ func H_C08_depth3() {
 	verif.Assert(verif.Eq(got, want), "per-inner-array")
 	verif.Reach("end")
 }
+
+// H_C08_options: a query over an array of arrays is the same query, with the
+// same options (variables, constants, SETVAR effects), applied to every inner
+// array: inner evaluation loses no part of the caller's context.
+func H_C08_options() {
+	form := verif.Choose("form", 4)
+	shape := verif.Choose("shape", 3)
+	shapes := [][]int{{2, 0, 1}, {1, 1}, {0, 2}}
+	var outer []any
+	var inner [][]any
+	for _, k := range shapes[shape] {
+		arr := make([]any, k)
+		for i := range arr {
+			x := verif.F64("a")
+			verif.Assume(x == x)
+			arr[i] = Map{"a": x}
+		}
+		inner = append(inner, arr)
+		outer = append(outer, arr)
+	}
+	lo := verif.F64("lo")
+	verif.Assume(lo == lo)
+	var sql string
+	mk := func() []QueryOption { return nil }
+	switch form {
+	case 0:
+		sql = "SELECT a, GETVAR('lo') AS m FROM n WHERE a > GETVAR('lo')"
+		mk = func() []QueryOption { return []QueryOption{WithVars(map[string]any{"lo": lo})} }
+	case 1:
+		sql = "SELECT a, CONSTANT('lo') AS m FROM n WHERE a > CONSTANT('lo')"
+		mk = func() []QueryOption { return []QueryOption{WithConstants(map[string]any{"lo": lo})} }
+	case 2:
+		sql = "SELECT a, SETVAR('seen', a) FROM n WHERE a > GETVAR('lo')"
+		varsA, varsB := map[string]any{"lo": lo}, map[string]any{"lo": lo}
+		cur := varsA
+		mk = func() []QueryOption { v := cur; cur = varsB; return []QueryOption{WithVars(v)} }
+		defer func() { verif.Assert(verif.Eq(varsA, varsB), "same-variable-effects") }()
+	case 3:
+		sql = "SELECT `a` AS \"v\" FROM n WHERE a > CONSTANT('lo')"
+		mk = func() []QueryOption {
+			return []QueryOption{PostgresEscapingDialect(), WithConstants(map[string]any{"lo": lo})}
+		}
+	}
+	got, ok := runQuery(Map{"n": outer}, sql, mk()...)
+	if !ok {
+		return
+	}
+	want := make([]any, 0, len(inner))
+	for _, arr := range inner {
+		part, ok := runQuery(Map{"n": arr}, sql, mk()...)
+		if !ok {
+			return
+		}
+		if part == nil {
+			part = []any{}
+		}
+		want = append(want, part)
+	}
+	verif.Assert(verif.Eq(got, want), "same-as-per-inner-array")
+	// and an absolute anchor for the first inner array
+	var first []any
+	for _, r := range inner[0] {
+		a := f64of(r.(Map)["a"])
+		if a > lo {
+			switch form {
+			case 0, 1:
+				first = append(first, Map{"a": a, "m": lo})
+			case 2:
+				first = append(first, Map{"a": a})
+			case 3:
+				first = append(first, Map{"v": a})
+			}
+		}
+	}
+	if first == nil {
+		first = []any{}
+	}
+	verif.Assert(len(got) > 0 && verif.Eq(got[0], first), "first-inner-array")
+	verif.Reach("end")
+}
